@@ -20,6 +20,32 @@ DROP_OK = {
 }
 
 
+def reviewed_drop(F, p, r, c, m):
+    """reasons why discarding the Result of store write `m` at call `c` of function `p` is accepted (shared with C05)"""
+    exc = [why for (fn, callee), why in DROP_OK.items() if fn in p and callee == m]
+    if not exc and m == "delete_node" and "DeleteOperator::" in p and "{closure" not in p:
+        # the reviewed DeleteOperator exception, re-established structurally when the code moves into a method of
+        # the operator: the discarded delete is dominated by a test of the node's relationships (made directly,
+        # through an operator helper that reads both adjacency directions, or in a closure built before it)
+        bb = Body(F.mir(p), r)
+        reltests = {x for x, rx in F.fns.items() if "DeleteOperator::" in x and any(cc.endswith("GraphStore::get_outgoing_edges") for cc in rx["calls"]) and any(cc.endswith("GraphStore::get_incoming_edges") for cc in rx["calls"])}
+        def _tests(fnp):
+            rx = F.fns.get(fnp, {})
+            return any(cc in reltests or cc.endswith("GraphStore::get_outgoing_edges") for cc in rx.get("calls", []))
+        doms = [cc.bb for cc in bb.calls() if (cc.path in reltests or cc.path.endswith("GraphStore::get_outgoing_edges"))]
+        doms += [i for i, j, pl, rv, line, exp in bb.stmts() if rv[0] == "agg" and rv[1].startswith("closure:") and _tests(rv[1][8:])]
+        if any(bb.dominates(d, c.bb) and d != c.bb for d in doms):
+            exc = ["(moved) " + DROP_OK[("DeleteOperator as samyama::query::executor::operator::PhysicalOperator>::next_mut", "delete_node")]]
+    if not exc and m in ("delete_node", "delete_edge"):
+        # rollback-on-error idiom: the discarded delete is followed, on every path, by the construction of the Err that is returned
+        bb = Body(F.mir(p), r)
+        errb = {i for i, j, pl, rv, line, exp in bb.stmts() if rv[0] == "agg" and rv[1].endswith("Result::Err")} | {cc.bb for cc in bb.calls() if cc.path.endswith("from_residual")}
+        rets = bb.ret_blocks()
+        if c.target is not None and rets and all(bb.must_pass(c.target, rb, errb) for rb in rets if rb in bb.reachable(c.target)):
+            exc = ["cleanup of a half-built entity on an error path: the statement already returns Err"]
+    return exc
+
+
 def run(ctx, F, cg):
     ctx.rule("R04a", "in DeleteOperator::next_mut a delete_node reached with detach == false is dominated by a relationship test, and a connected node leads to an Err return")
     ctx.rule("R04b", "no Result of a fallible GraphStore write is discarded by a write operator (reviewed exceptions listed with their reason)")
@@ -115,14 +141,7 @@ def run(ctx, F, cg):
     nd = 0
     for p, r, c, m, k in dropped:
         short = p.replace("samyama::query::executor::operator::", "").replace("samyama::query::executor::", "")
-        exc = [why for (fn, callee), why in DROP_OK.items() if fn in p and callee == m]
-        if not exc and m in ("delete_node", "delete_edge"):
-            # rollback-on-error idiom: the discarded delete is followed, on every path, by the construction of the Err that is returned
-            bb = Body(F.mir(p), r)
-            errb = {i for i, j, pl, rv, line, exp in bb.stmts() if rv[0] == "agg" and rv[1].endswith("Result::Err")} | {cc.bb for cc in bb.calls() if cc.path.endswith("from_residual")}
-            rets = bb.ret_blocks()
-            if c.target is not None and rets and all(bb.must_pass(c.target, rb, errb) for rb in rets if rb in bb.reachable(c.target)):
-                exc = ["cleanup of a half-built entity on an error path: the statement already returns Err"]
+        exc = reviewed_drop(F, p, r, c, m)
         if exc:
             ctx.ok("R04b", "%s|%s|%d" % (short, m, k), "reviewed exception: " + exc[0])
             continue
